@@ -1,9 +1,10 @@
 import S2T.Drv.Util
 import S2T.Model.Loops
 import S2T.Model.Limits
+import S2T.Model.Amplify
 import S2T.Gen.C12Consts
 namespace S2T.Drv.C12
-open Lean S2T.Drv S2T.Loops S2T.Limits
+open Lean S2T.Drv S2T.Loops S2T.Limits S2T.Amplify
 open S2T.Gen (C12Consts.filepassId)
 
 def jN (n : Nat) : Json := Json.num (JsonNumber.fromNat n)
@@ -25,17 +26,34 @@ def genOps : Except String Ops :=
 
 def szErr : SzErr → String | .bad7z => "Bad7zFile" | .overflow => "OverflowError"
 
-def parseRows (j : Json) : Except String (List OdsRow) := do
+def parseRows (j : Json) : Except String (List OdsRowC) := do
   let rows ← getArr j "rows"
   rows.toList.mapM (fun r => do
     let rep ← getInt r "rep"
     let cells ← getArr r "cells"
     let cs ← cells.toList.mapM (fun c => do
       let cr ← getInt c "rep"
+      let covered := match c.getObjValAs? Bool "covered" with | .ok b => b | .error _ => false
+      if covered then return OdsChild.covered cr
       let isNone ← getBool c "none"
       let tl ← getNat c "tlen"
-      return (⟨cr, isNone, tl⟩ : OdsCell))
-    return (⟨rep, cs⟩ : OdsRow))
+      return OdsChild.cell (⟨cr, isNone, tl⟩ : OdsCell))
+    return (⟨rep, cs⟩ : OdsRowC))
+
+def parseTarMembers (j : Json) : Except String (List TarMember) := do
+  let ms ← getArr j "members"
+  ms.toList.mapM (fun m => do
+    let size ← getNat m "size"
+    let k ← getStr m "kind"
+    let kind ← match TarKind.ofString k with | some x => pure x | none => throw s!"unknown tar member kind {k}"
+    let delivers ← match m.getObjVal? "delivers" with
+      | .ok .null => pure none
+      | .ok v => (some <$> v.getNat?)
+      | .error _ => pure none
+    return (⟨size, kind, delivers⟩ : TarMember))
+
+def digitList (s : String) : Except String (List Nat) :=
+  s.toList.mapM (fun ch => if ch.isDigit then pure (ch.toNat - 48) else throw s!"not a digit: {ch}")
 
 def handle (op : String) (j : Json) : Option (Except String Json) :=
   match op with
@@ -180,9 +198,34 @@ def handle (op : String) (j : Json) : Option (Except String Json) :=
       let rt ← getNat j "row_tags"
       let et ← getNat j "empty_tags"
       let tt ← getNat j "text_tags"
-      let sh := sheetShape rows
-      return Json.mkObj [("rows", jN sh.1), ("cols", jN sh.2), ("cells", jN (sheetCells rows)),
-                         ("materialised", jN (materialised rows)), ("xml_len", jN (xmlLen env rt et tt rows))]
+      let ct := match j.getObjValAs? Nat "covered_tags" with | .ok n => n | .error _ => 0
+      let sh := sheetShapeC rows
+      return Json.mkObj [("rows", jN sh.1), ("cols", jN sh.2), ("cells", jN (sheetCellsC rows)),
+                         ("materialised", jN (materialisedC rows)), ("xml_len", jN (xmlLenC env rt et tt ct rows))]
+  | "c12.tar_loop" => some do
+      let o ← genOps
+      let lim ← getNat j "limit"
+      let ms ← parseTarMembers j
+      let accept := acceptOfTable S2T.Gen.C12Consts.tarGuardAccepts
+      let sizeFirst := eventBefore S2T.Gen.C12Consts.tarLoopEvents "size-test" "read"
+      return Json.mkObj [("delivered", jNats (tarLoopDelivered o accept sizeFirst lim ms)), ("payload", jN (tarPayload ms))]
+  | "c12.text_s" => some do
+      let a ← getArr j "inlines"
+      let p ← a.toList.mapM (fun i => match i.getObjValAs? String "digits" with
+        | .ok ds => do return Inline.space (← digitList ds)
+        | .error _ => do return Inline.text (← getStr i "text").toList)
+      return Json.mkObj [("out_len", jN (paraText p).length), ("spaces", jN ((paraText p).filter (· == ' ')).length),
+                         ("markup_len", jN (paraMarkupLen p))]
+  | "c12.xlsx_rect" => some do
+      let env ← getNat j "envelope"
+      let tags ← getNat j "cell_tags"
+      let a ← getArr j "cells"
+      let cs ← a.toList.mapM (fun c => do
+        let r ← getNat c "row"
+        let col ← getNat c "col"
+        let tl ← getNat c "tlen"
+        return (⟨r, col, tl⟩ : UsedCell))
+      return Json.mkObj [("cells", jN (rectCells cs)), ("sheet_len", jN (sheetLen env tags cs))]
   | _ => none
 
 end S2T.Drv.C12
